@@ -125,3 +125,29 @@ def lemma_operation_marshalling(repo):
 
 
 LEMMAS = [lemma_operation_marshalling]
+
+# ---- the namespace argument of an intrinsic call derives from what the caller named
+NSARG = Union(Str, NoneT, Int)
+CONTRACTS.append(Contract(
+    K + '_iparam_namespace_from_namespace',
+    params={'self': CONN, 'namespace': NSARG},
+    # (the function reassigns its parameter: the caller's argument is old(namespace))
+    ensures=[('default-namespace-when-none-is-named', 'implies(old(namespace) is None, result == self.default_namespace)'),
+             ('the-named-namespace-without-surrounding-slashes',
+              "(not result.startswith('/') and not result.endswith('/') and result in old(namespace)) "
+              "if isinstance(old(namespace), str) else True"),
+             ('a-name-without-surrounding-slashes-is-passed-as-it-is',
+              "implies(isinstance(old(namespace), str) and not old(namespace).startswith('/') "
+              "and not old(namespace).endswith('/'), result == old(namespace))")],
+    raises={'TypeError': Raises(post=[('only-for-a-wrong-type',
+                                       'not isinstance(old(namespace), str) and old(namespace) is not None')])},
+))
+CONTRACTS.append(Contract(
+    K + '_iparam_namespace_from_objectname',
+    params={'self': CONN, 'objectname': Union(Ref('CIMInstanceName'), Ref('CIMClassName'), Str, NoneT, Int), 'arg_name': Str},
+    ensures=[('namespace-of-the-path-else-the-default',
+              'result == (objectname.namespace if isinstance(objectname, (CIMClassName, CIMInstanceName)) '
+              'and objectname.namespace is not None else self.default_namespace)')],
+    raises={'TypeError': Raises(post=[('only-for-a-wrong-type',
+                                       'not isinstance(objectname, (str, CIMClassName, CIMInstanceName)) and objectname is not None')])},
+))
